@@ -167,7 +167,8 @@ def main():
     if dis:
         # name the first disagreement with its schema so that it can be replayed
         r, m = dis[0]
-        cid = r[0].split(" ")[2] if r[0].startswith("pyroundtrip") else r[0].split(" ")[3]
+        toks = r[0].split(" ")
+        cid = (toks[2] if r[0].startswith("pyroundtrip") else toks[3]) if len(toks) > 3 else (r[1].split(" ")[1] if len(r[1].split(" ")) > 1 else "")
         info = cases.get(cid, {})
         log("model/implementation disagreement:", r[0][:600], "| impl:", r[1][:300], "| model:", m[:300])
         c.cov["first_disagreement"] = {"request": r[0][:2000], "impl": r[1][:1000], "model": m[:1000], **info}
